@@ -277,19 +277,48 @@ func (c *Ctx) ruleCallee() {
 		}
 		var seeds []int64
 		le := true
-		eachInstr(f, func(_ *ssa.BasicBlock, _ int, in ssa.Instruction) {
-			if call, ok := in.(*ssa.Call); ok {
+		// seeds are followed through helpers of the same package (constant arguments bound to their parameters)
+		var collect func(g *ssa.Function, env map[ssa.Value]int64, depth int)
+		collect = func(g *ssa.Function, env map[ssa.Value]int64, depth int) {
+			if depth > 4 {
+				return
+			}
+			resolve := func(v ssa.Value) (int64, bool) {
+				if k, ok := constInt(v); ok {
+					return k, true
+				}
+				k, ok := env[stripConv(v)]
+				return k, ok
+			}
+			eachInstr(g, func(_ *ssa.BasicBlock, _ int, in ssa.Instruction) {
+				call, ok := in.(*ssa.Call)
+				if !ok {
+					return
+				}
 				nm := calleeName(&call.Call)
 				if strings.HasSuffix(nm, "xxhash.NewS64") {
-					if k, ok := constInt(call.Call.Args[0]); ok {
+					if k, ok := resolve(call.Call.Args[0]); ok {
 						seeds = append(seeds, k)
+					} else {
+						seeds = append(seeds, -1) // seed not a constant on this path
 					}
+					return
 				}
 				if strings.Contains(nm, "bigEndian).PutUint64") {
 					le = false
 				}
-			}
-		})
+				if cal := call.Call.StaticCallee(); cal != nil && cal.Pkg == f.Pkg && cal != g && len(cal.Blocks) > 0 {
+					env2 := map[ssa.Value]int64{}
+					for i, a := range call.Call.Args {
+						if k, ok := resolve(a); ok && i < len(cal.Params) {
+							env2[cal.Params[i]] = k
+						}
+					}
+					collect(cal, env2, depth+1)
+				}
+			})
+		}
+		collect(f, map[ssa.Value]int64{}, 0)
 		ok := len(seeds) == n && le
 		for i, s := range seeds {
 			if s != int64(i) {
